@@ -516,7 +516,32 @@ def h_consume(req):
             rec["eq"] = _try(lambda: [obj == twin, twin == obj])
             rec["hash_eq"] = _try(lambda: hash(obj) == hash(twin))
             out["loaded"].append(rec)
+            if form == "dict" and not req.get("derive"):
+                # (not for query results: their children keep, by design, the identifiers of the objects they were cut
+                # from, which were computed in the coordinates of the original parent)
+                # identifiers are functions of content: the exported content *without* its identifiers, imported again,
+                # must be given the very identifiers it was exported with (at every level)
+                try:
+                    d2 = _strip_own_guids(pickle.loads(_unb64(payload)))
+                    klass = type(obj)
+                    obj2 = klass.from_dict(d2) if cls == "AnnotationCollection" else klass.from_dict(d2, parent)
+                    rec2 = {"path": path, "cls": cls, "form": "recompute", "guids": guid_tree(obj2)}
+                except Exception as e:
+                    rec2 = {"path": path, "cls": cls, "form": "recompute", "load_error": type(e).__name__}
+                out["recomputed"] = out.get("recomputed", []) + [rec2]
     return out
+
+
+OWN_GUID_KEYS = ("feature_interval_guid", "transcript_interval_guid", "variant_interval_guid", "feature_collection_guid", "gene_guid",
+                 "variant_collection_guid")
+
+
+def _strip_own_guids(d):
+    if isinstance(d, dict):
+        return {k: (None if k in OWN_GUID_KEYS else _strip_own_guids(v)) for k, v in d.items()}
+    if isinstance(d, list):
+        return [_strip_own_guids(x) for x in d]
+    return d
 
 
 def h_guids(req):
@@ -567,6 +592,14 @@ def judge_case(case, prod, cons, sens_guids):
             findings.append(dict(base, what="eq", detail=str(rec["eq"])))
         elif rec["hash_eq"] is not True:
             findings.append(dict(base, what="hash", detail=str(rec["hash_eq"])))
+    # 2b. content -> identifier
+    for rec in cons.get("recomputed", []):
+        src = prod["report"] if not rec["path"] else prod_children[json.dumps(rec["path"])]["report"]
+        base = {"inv": "guid_of_content", "form": "recompute", "cls": rec["cls"]}
+        if "load_error" in rec:
+            findings.append(dict(base, what="load_raise:" + rec["load_error"]))
+        elif rec["guids"] != src["guids"]:
+            findings.append(dict(base, what="guid_differs_from_exported:" + str(_first_guid_diff_cls(src["guids"], rec["guids"]))))
     # 3. sensitivity
     if sens_guids is not None and case.get("sens"):
         if "error" not in sens_guids:
